@@ -454,7 +454,12 @@ def attach(tree, kf_active):
     # verif_gen.rs (lib crate): known-finding list + harness table
     with open(os.path.join(lib, 'verif_gen.rs'), 'w') as out:
         out.write('// GENERATED\n')
-        out.write('pub const KF_ACTIVE: &[&str] = &[%s];\n' % ', '.join(json.dumps(k) for k in sorted(kf_active)))
+        used = set(['KF_NONE'])
+        for hf in harness_files():
+            used.update(re.findall(r'\bKF_[A-Za-z0-9_]+\b', open(hf).read()))
+        active = set(k.replace('-', '_') for k in kf_active)
+        for ident in sorted(used | active):
+            out.write('pub const %s: bool = %s;\n' % (ident, 'true' if ident in active else 'false'))
         out.write('#[cfg(not(kani))]\npub fn table() -> Vec<(&\'static str, fn())> {\n    let mut v: Vec<(&\'static str, fn())> = Vec::new();\n')
         for crate, t in table_entries:
             if crate == 'lib':
